@@ -514,8 +514,18 @@ def script_blocks(g, n, prop, out):
                 except Bad as e:
                     out.append((e.finding, e.detail))
                 except Exception as e:  # noqa
-                    out.append(("%s/scale:raises:%s" % (prop, type(e).__name__),
-                                "%s: %r" % (where, e)))
+                    import traceback
+
+                    tb = traceback.format_exc()
+                    # raised by a lookup: the index property; raised by an
+                    # edit: the collection / containment properties
+                    who = ((prop,) if "check_block_lookups" in tb
+                           or "_blocks_" in tb.split("\n")[-3]
+                           else ("C04", "C16"))
+                    for p_ in who:
+                        out.append(("%s/scale:raises:%s"
+                                    % (p_, type(e).__name__),
+                                    "%s: %r" % (where, e)))
     return steps
 
 
@@ -814,8 +824,15 @@ def script_symbols(g, n, out):
     except Bad as e:
         out.append((e.finding, e.detail))
     except Exception as e:  # noqa
-        out.append(("C10/scale:raises:%s" % type(e).__name__,
-                    "%s: %r" % (where, e)))
+        import traceback
+
+        tb = traceback.format_exc()
+        who = ("C10",) if ("symbols_named" in tb or "references" in tb
+                           or "_index" in tb or ".name" in tb) \
+            else ("C16", "C04")
+        for p_ in who:
+            out.append(("%s/scale:raises:%s" % (p_, type(e).__name__),
+                        "%s: %r" % (where, e)))
     return steps
 
 
